@@ -153,7 +153,9 @@ pub fn ac13(m: &[u32]) -> Alt {
         return Alt::Metric;
     }
     if b(8) == 1 {
-        let n = ((f >> 7) << 4) | (f & 0xF); // drop M and Q
+        // N = the 11 bits that remain when M (index 6) and Q (index 8) are removed:
+        // C1 A1 C2 A2 C4 A4 | B1 | B2 D2 B4 D4
+        let n = ((f >> 7) << 5) | (b(7) << 4) | (f & 0xF);
         return Alt::Ft(n as i32 * 25 - 1000);
     }
     match gillham_ft(b(0), b(1), b(2), b(3), b(4), b(5), b(7), b(9), b(10), b(11), b(12)) {
